@@ -20,7 +20,7 @@ ERRCODE = {"IndexError": 1, "ValueError": 2, "TypeError": 3, "WidgetError": 4, "
 ERRNAME = {v: k for k, v in ERRCODE.items()}
 
 TEXTS = ["a", "hello world", "x\ny", "世界 ok", "á́b", "", "──┐", "longwordwithoutspaces ok",
-         "one two three four five", "世", "ab\ncd\n", "  lead", "tab\there", "́", "q世w界e"]
+         "one two three four five", "世", "ab\ncd\n", "  lead", "́", "q世w界e"]
 ALIGNS = ["left", "center", "right"]
 WRAPS = ["space", "any", "clip", "ellipsis"]
 VALIGNS = ["top", "middle", "bottom"]
@@ -71,7 +71,7 @@ def build(spec):
         return urwid.BigText(spec[1], font)
     if k == "bargraph":
         g = urwid.BarGraph(["a", "b", "c"])
-        g.set_data([[v] for v in spec[1]], spec[2], spec[3] or None)
+        g.set_data([[v] for v in spec[1]], spec[2], [spec[3]] if spec[3] else None)
         return g
     if k == "selicon":
         return urwid.SelectableIcon(spec[1], spec[2])
@@ -188,33 +188,57 @@ def canvas_obs(canv):
     return [cols, rows, cur, int(rect)], problems
 
 
-def probe(w, size, focus):
-    """What the widget reports for one size: rows / pack / render."""
+def _call(fn, track=None):
+    """Run fn under the spy.  Returns (value or error name, starved list, detail)."""
+    with Spy(track["boxcalls"] if track else None) as spy:
+        try:
+            v = fn()
+            detail = None
+        except Exception as e:      # noqa: BLE001
+            v = errname(e)
+            tb = e.__traceback__
+            inner = None
+            while tb is not None:
+                if "/urwid/" in tb.tb_frame.f_code.co_filename:
+                    inner = tb.tb_frame.f_code.co_name
+                tb = tb.tb_next
+            detail = f"{type(e).__name__}: {str(e)[:70]!s} [in {inner}]"
+    if track is not None:
+        track["maxw"] = max(track["maxw"], spy.maxw)
+    return v, list(spy.starved), detail
+
+
+def probe(w, size, focus, track=None):
+    """What the widget reports for one size.  Returns (canonical, raw):
+    canonical[k] is "Starved" whenever some widget was asked for a degenerate size during call k;
+    raw keeps the actual outcome, the starved calls and exception details for the oracle."""
     import urwid
-    out = {}
+    canon, raw = {}, {}
     size = tuple(size)
+
+    def do(key, fn):
+        urwid.CanvasCache.clear()
+        v, starved, detail = _call(fn, track)
+        raw[key] = {"value": v, "starved": starved[:3], "detail": detail}
+        canon[key] = "Starved" if starved else v
+
     if len(size) == 1:
-        urwid.CanvasCache.clear()
-        try:
-            out["rows"] = int(w.rows(size, focus))
-        except Exception as e:      # noqa: BLE001
-            out["rows"] = errname(e)
+        do("rows", lambda: int(w.rows(size, focus)))
     if len(size) < 2:
-        urwid.CanvasCache.clear()
-        try:
+        def pk():
             p = w.pack(size, focus)
-            out["pack"] = [int(p[0]), int(p[1])]
-        except Exception as e:      # noqa: BLE001
-            out["pack"] = errname(e)
-    urwid.CanvasCache.clear()
+            return [int(p[0]), int(p[1])]
+        do("pack", pk)
     problems = []
-    try:
+
+    def rd():
         canv = w.render(size, focus)
-        out["render"], problems = canvas_obs(canv)
-    except Exception as e:          # noqa: BLE001
-        out["render"] = errname(e)
-        out["detail"] = f"{type(e).__name__}: {str(e)[:100]}"
-    return out, problems
+        obs, pr = canvas_obs(canv)
+        problems.extend(pr)
+        return obs
+    do("render", rd)
+    raw["problems"] = problems
+    return canon, raw
 
 
 # ------------------------------------------------------------------ generator of well-formed trees
@@ -241,7 +265,7 @@ class Gen:
             lambda: ["edit", r.choice(["", "c:", "世:"]), self.text(), r.choice(WRAPS[:3]), r.choice(ALIGNS), r.randint(0, 12)],
             lambda: ["edit", r.choice(["", "c:"]), self.text(), r.choice(WRAPS[:3]), r.choice(ALIGNS), r.randint(0, 12)],
             lambda: ["intedit", r.choice(["", "n:"]), r.choice([0, 7, 123456])],
-            lambda: ["div", r.choice(["-", " ", "─", "世"]), self.small(), self.small()],
+            lambda: ["div", r.choice(["-", " ", "─", "="]), self.small(), self.small()],
             lambda: ["button", r.choice(["ok", "", "世界", "a longer label"])],
             lambda: ["checkbox", r.choice(["cb", "世界", ""]), r.randint(0, 1)],
             lambda: ["radio", r.choice(["r", "radio button"])],
@@ -250,7 +274,7 @@ class Gen:
             lambda: ["gridflow", [self.leaf("flow") for _ in range(r.randint(1, 4))], r.randint(1, 8), r.randint(0, 2), r.randint(0, 1), r.choice(ALIGNS)],
         ]
         fixed = [
-            lambda: ["bigtext", r.choice(["1", "ab", "", "0,1"]), r.choice(["3x3", "4x3", "half"])],
+            lambda: ["bigtext", r.choice(["1", "ab", "0,1"]), r.choice(["3x3", "4x3", "half"])],
             lambda: ["text", self.text(), r.choice(ALIGNS), r.choice(WRAPS)],
         ]
         box = [
@@ -287,7 +311,10 @@ class Gen:
         return self.leaf(want)
 
     def relpct(self):
-        return self.rng.choice([0, 10, 30, 50, 50, 75, 100, 100])
+        return self.rng.choice([10, 30, 50, 50, 75, 100, 100])
+
+    def alignpct(self):
+        return self.rng.choice([0, 10, 30, 50, 75, 100])
 
     def container(self, d, want):
         r = self.rng
@@ -308,14 +335,14 @@ class Gen:
                     r.choice(["body", "body", "header", "footer"])]
         if k == "fill":
             h = r.choice(["pack", "pack", "g", "rel"]) if want != "flow" else r.choice(["pack", "g"])
-            valign = r.choice(VALIGNS + [["relative", self.relpct()]])
+            valign = r.choice(VALIGNS + [["relative", self.alignpct()]])
             if h == "pack":
                 return ["fill", sub("flow"), valign, "pack", None, self.small(), self.small()]
             if h == "g":
                 return ["fill", sub("box"), valign, r.choice([1, 2, 3, 6]), None, self.small(), self.small()]
             return ["fill", sub("box"), valign, ["relative", self.relpct()], r.choice([None, None, 1, 2]), self.small(), self.small()]
         if k == "pad":
-            align = r.choice(ALIGNS + [["relative", self.relpct()]])
+            align = r.choice(ALIGNS + [["relative", self.alignpct()]])
             wk = r.choice(["rel", "rel", "pack", "g", "clip"]) if want in ("flow", None) else r.choice(["rel", "pack", "g"])
             mw = r.choice([None, None, 1, 2, 4])
             if wk == "clip":
@@ -326,8 +353,8 @@ class Gen:
                 return ["pad", sub(want if want != "box" else None), align, "pack", mw, self.small(), self.small()]
             return ["pad", sub(want), align, ["relative", self.relpct()], mw, self.small(), self.small()]
         if k == "ov":
-            align = r.choice(ALIGNS + [["relative", self.relpct()]])
-            valign = r.choice(VALIGNS + [["relative", self.relpct()]])
+            align = r.choice(ALIGNS + [["relative", self.alignpct()]])
+            valign = r.choice(VALIGNS + [["relative", self.alignpct()]])
             mw, mh = r.choice([None, None, 1, 3]), r.choice([None, None, 1, 2])
             if want == "fixed":
                 wk = r.choice(["pack", "g", "g"])
@@ -391,29 +418,75 @@ class Gen:
 
 
 # ------------------------------------------------------------------ degenerate-size spy
-class Spy:
-    """Records every widget that is asked (render or rows) for a size with a component <= 0.
-    Hooks CanvasCache.fetch, which every cached render()/rows() wrapper calls first."""
+_RECORDER = [None]
+_INSTALLED = [False]
 
-    def __init__(self):
+
+def _install_spy():
+    """Wrap render/rows/pack of every Widget subclass (once): while a recorder is active, note every
+    call whose size has a component <= 0 (a 'starved' widget)."""
+    if _INSTALLED[0]:
+        return
+    import functools
+    import urwid
+
+    def all_subclasses(c):
+        out, todo = [], [c]
+        while todo:
+            k = todo.pop()
+            for sub in k.__subclasses__():
+                if sub not in out:
+                    out.append(sub)
+                    todo.append(sub)
+        return out
+
+    def wrap(cls, name):
+        fn = cls.__dict__[name]
+
+        @functools.wraps(fn)
+        def spied(self, size=(), *a, **kw):
+            rec = _RECORDER[0]
+            if rec is not None:
+                try:
+                    tsize = tuple(size)
+                    if any(isinstance(v, int) and v <= 0 for v in tsize):
+                        rec.starved.append((type(self).__name__, name, tsize))
+                    if tsize and isinstance(tsize[0], int) and tsize[0] > rec.maxw:
+                        rec.maxw = tsize[0]
+                    if rec.boxcalls is not None and name == "render" and len(tsize) == 2:
+                        foc = bool(a[0]) if a else bool(kw.get("focus", False))
+                        rec.boxcalls.add((id(self), tsize[0], tsize[1], foc))
+                except TypeError:
+                    pass
+            return fn(self, size, *a, **kw)
+        spied._c01_spy = True
+        setattr(cls, name, spied)
+
+    for cls in [urwid.Widget] + all_subclasses(urwid.Widget):
+        for name in ("render", "rows", "pack"):
+            fn = cls.__dict__.get(name)
+            if fn is None or not callable(fn) or isinstance(fn, (property, staticmethod, classmethod)):
+                continue
+            if getattr(fn, "_c01_spy", False):
+                continue
+            wrap(cls, name)
+    _INSTALLED[0] = True
+
+
+class Spy:
+    def __init__(self, boxcalls=None):
         self.starved = []
+        self.maxw = 0
+        self.boxcalls = boxcalls
 
     def __enter__(self):
-        from urwid.canvas import CanvasCache
-        self.cc = CanvasCache
-        self.orig = CanvasCache.__dict__["fetch"]
-        orig_fn = self.orig.__func__
-        rec = self.starved
-
-        def fetch(cls, widget, wcls, size, focus):
-            if any(isinstance(v, int) and v <= 0 for v in size):
-                rec.append((type(widget).__name__, tuple(size)))
-            return orig_fn(cls, widget, wcls, size, focus)
-        CanvasCache.fetch = classmethod(fetch)
+        _install_spy()
+        self.prev = _RECORDER[0]
+        _RECORDER[0] = self
         return self
 
     def __exit__(self, *a):
-        self.cc.fetch = self.orig
+        _RECORDER[0] = self.prev
 
 
 # ------------------------------------------------------------------ introspection of a built tree
@@ -451,59 +524,121 @@ def has(w, mode):
     return mode in {str(getattr(x, "value", x)) for x in w.sizing()}
 
 
+def sz3(w):
+    b = sizing_bits(w)
+    return {"box": bool(b[0]), "flow": bool(b[1]), "fixed": bool(b[2])}
+
+
 def wf_node(w):
-    """The WellFormed rule of one node (children's sizing as the real code reports it).
-    Returns None if fine, else a short reason.  Mirrors WellFormed in Model/WidgetDims.v."""
+    """The WellFormed rule of one node, mirroring wf_b in Model/WidgetDims.v (children's and the
+    container's own sizing as the real code reports them).  None if fine, else a short reason."""
     k = kind_of(w)
+
+    def imp(a, b):
+        return (not a) or b
     if k == "ba":
-        return None if has(w.original_widget, "box") else "BoxAdapter child is not a box widget"
+        if not sz3(w.original_widget)["box"]:
+            return "BoxAdapter child is not a box widget"
+        return None if w.height >= 1 else "BoxAdapter height < 1"
     if k == "frame":
-        if not has(w.body, "box"):
+        if not sz3(w.body)["box"]:
             return "Frame body is not a box widget"
         for part in (w.header, w.footer):
-            if part is not None and not has(part, "flow"):
+            if part is not None and not sz3(part)["flow"]:
                 return "Frame header/footer is not a flow widget"
         return None
     if k == "fill":
-        c = w.original_widget
-        if wh_code(w.height_type) == 1:
-            return None if has(c, "flow") else "pack Filler child is not a flow widget"
-        return None if has(c, "box") else "given/relative Filler child is not a box widget"
-    if k == "pad":
-        c = w.original_widget
-        wt = wh_code(w._width_type)
-        if wt == 4:
-            return None if has(c, "fixed") else "clip Padding child is not a fixed widget"
-        if wt == 1:
-            return None if has(c, "flow") else "pack Padding child is not a flow widget"
-        return None
-    if k == "ov":
-        if not has(w.bottom_w, "box"):
-            return "Overlay bottom is not a box widget"
-        c = w.top_w
-        wt, ht = wh_code(w.width_type), wh_code(w.height_type)
-        if wt == 1:
-            return None if has(c, "fixed") else "pack-width Overlay top is not a fixed widget"
+        c = sz3(w.original_widget)
+        ht = wh_code(w.height_type)
+        if not (w.top >= 0 and w.bottom >= 0):
+            return "negative Filler top/bottom"
         if ht == 1:
-            return None if has(c, "flow") else "pack-height Overlay top is not a flow widget"
-        return None if has(c, "box") else "given/relative-height Overlay top is not a box widget"
+            return None if c["flow"] else "pack Filler child is not a flow widget"
+        if not (w.height_amount >= 1):
+            return "Filler height amount < 1"
+        return None if c["box"] else "given/relative Filler child is not a box widget"
+    if k == "pad":
+        c = sz3(w.original_widget)
+        wt = wh_code(w._width_type)
+        if not (w.left >= 0 and w.right >= 0):
+            return "negative Padding left/right"
+        if wt == 4:
+            return None if c["fixed"] else "clip Padding child is not a fixed widget"
+        if wt == 1:
+            return None if imp(c["box"], c["flow"]) else "pack Padding around a box widget that is not also flow"
+        if wt == 0:
+            if w._width_amount < 1:
+                return "Padding width < 1"
+            return None if imp(c["fixed"], c["flow"]) else "given-width Padding around a fixed widget that is not also flow"
+        return None if w._width_amount >= 1 else "Padding relative width < 1"
+    if k == "ov":
+        if not sz3(w.bottom_w)["box"]:
+            return "Overlay bottom is not a box widget"
+        c = sz3(w.top_w)
+        wt, ht = wh_code(w.width_type), wh_code(w.height_type)
+        if min(w.left, w.right, w.top, w.bottom) < 0:
+            return "negative Overlay margins"
+        if wt == 1:
+            return None if c["fixed"] else "pack-width Overlay top is not a fixed widget"
+        if not (w.width_amount >= 1):
+            return "Overlay width amount < 1"
+        if ht == 1:
+            return None if c["flow"] else "pack-height Overlay top is not a flow widget"
+        if not (w.height_amount >= 1):
+            return "Overlay height amount < 1"
+        return None if c["box"] else "given/relative-height Overlay top is not a box widget"
     if k == "pile":
-        for c, (kind, _amount) in w.contents:
+        ps = sz3(w)
+        for c, (kind, amount) in w.contents:
+            cs = sz3(c)
             kc = wh_code(kind)
-            if kc == 0 and not has(c, "box"):
+            if kc == 0 and not (amount >= 1 and cs["box"]):
                 return "given-height Pile child is not a box widget"
-            if kc == 1 and not has(c, "flow"):
+            if kc == 1 and not cs["flow"]:
                 return "pack Pile child is not a flow widget"
-            if kc == 2 and not (has(c, "box") or has(c, "flow")):
-                return "weighted Pile child is neither box nor flow"
+            if kc == 2:
+                if not (isinstance(amount, int) and amount >= 1):
+                    return "Pile weight is not a positive integer"
+                if not (cs["box"] or cs["flow"]):
+                    return "weighted Pile child is neither box nor flow"
+                if not imp(ps["box"], cs["box"]):
+                    return "Pile claims box sizing but a weighted child is not a box widget"
+                if not imp(ps["flow"], cs["flow"]):
+                    return "Pile claims flow sizing but a weighted child is not a flow widget"
+                if not imp(ps["fixed"], cs["flow"] or (cs["fixed"] and cs["box"])):
+                    return "Pile claims fixed sizing but a weighted child supports neither flow nor fixed+box"
+        if w.contents and not (0 <= w.focus_position):
+            return "focus"
         return None
     if k == "cols":
-        for c, (kind, _amount, is_box) in w.contents:
+        ps = sz3(w)
+        if w.dividechars < 0 or w.min_width < 1:
+            return "Columns dividechars < 0 or min_width < 1"
+        for c, (kind, amount, is_box) in w.contents:
+            cs = sz3(c)
             kc = wh_code(kind)
-            if kc == 1 and not (has(c, "flow") or has(c, "fixed")):
+            if kc == 1 and not (cs["flow"] or cs["fixed"]):
                 return "pack Columns child is neither flow nor fixed"
-            if kc != 1 and not (has(c, "box") or has(c, "flow")):
+            if kc != 1 and not (cs["box"] or cs["flow"]):
                 return "given/weight Columns child is neither box nor flow"
+            if kc != 1 and not (isinstance(amount, int) and amount >= 1):
+                return "Columns width/weight is not a positive integer"
+            if is_box:
+                flow_ok = cs["box"]
+            elif cs["flow"]:
+                flow_ok = True
+            else:
+                flow_ok = cs["fixed"] if kc == 1 else cs["box"]
+            if kc == 1:
+                fixed_ok = cs["fixed"] and not is_box
+            else:
+                fixed_ok = cs["box"] if is_box else cs["flow"]
+            if not imp(ps["box"], cs["box"]):
+                return "Columns claims box sizing but a child is not a box widget"
+            if not imp(ps["flow"], flow_ok):
+                return "Columns claims flow sizing but a child cannot be rendered in a flow Columns"
+            if not imp(ps["fixed"], fixed_ok):
+                return "Columns claims fixed sizing but a child cannot be rendered in a fixed Columns"
         return None
     return None
 
@@ -532,3 +667,462 @@ def wf_tree(w):
         if r:
             return r
     return None
+
+
+# ------------------------------------------------------------------ model wire encoding
+def e_res(v, kind):
+    """kind: 'z' | 'pair' | 'canv'"""
+    if isinstance(v, str):
+        return [1, 13 if v == "Starved" else ERRCODE.get(v, 10)]
+    if kind == "z":
+        return [0, v]
+    if kind == "pair":
+        return [0, v[0], v[1]]
+    cur = v[2]
+    return [0, v[0], v[1]] + ([1, cur[0], cur[1]] if cur is not None else [0, 0, 0]) + [v[3]]
+
+
+def align_pct(t, amount):
+    v = str(getattr(t, "value", t))
+    return {"left": 0, "center": 50, "right": 100, "top": 0, "middle": 50, "bottom": 100}.get(v, amount)
+
+
+def oz(v):
+    return [0, 0] if v is None else [1, int(v)]
+
+
+def wtype_enc(t, amount):
+    k = wh_code(t)
+    return [k, 0 if amount is None else int(amount)]
+
+
+class Encoder:
+    def __init__(self, wmax, boxcalls):
+        self.wmax = wmax
+        self.boxcalls = boxcalls
+        self.ok = True
+
+    def leaf(self, w):
+        out = [0]
+        b = sizing_bits(w)
+        out.append(b[0] + 2 * b[1] + 4 * b[2])
+        for focus in (False, True):
+            n = self.wmax if b[1] else 0          # only flow leaves are ever asked flow questions in a WellFormed tree
+            out.append(n + 1)
+            out += [1, 12, 1, 12, 1, 12]          # width 0: never consulted
+            for c in range(1, n + 1):
+                canon, _raw = probe(w, (c,), focus)
+                out += e_res(canon["rows"], "z") + e_res(canon["pack"], "pair") + e_res(canon["render"], "canv")
+            if b[2]:
+                canon, _raw = probe(w, (), focus)
+                out += e_res(canon["pack"], "pair") + e_res(canon["render"], "canv")
+            else:
+                out += [1, 12, 1, 12]
+        calls = sorted((c, r, f) for (i, c, r, f) in self.boxcalls if i == id(w))
+        out.append(len(calls))
+        for c, r, f in calls:
+            canon, _raw = probe(w, (c, r), f)
+            out += [c, r, int(f)] + e_res(canon["render"], "canv")
+        return out
+
+    def node(self, w):
+        k = kind_of(w)
+        if k == "leaf":
+            return self.leaf(w)
+        if k in ("attr",):
+            return [1] + self.node(w.original_widget)
+        if k == "deleg":
+            return [1] + self.node(w._wrapped_widget)
+        if k == "ba":
+            return [2, int(w.height)] + self.node(w.original_widget)
+        if k == "pad":
+            return ([3, align_pct(w._align_type, w._align_amount)] + wtype_enc(w._width_type, w._width_amount)
+                    + oz(w.min_width) + [w.left, w.right] + self.node(w.original_widget))
+        if k == "fill":
+            return ([4, align_pct(w.valign_type, w.valign_amount)] + wtype_enc(w.height_type, w.height_amount)
+                    + oz(w.min_height) + [w.top, w.bottom] + self.node(w.original_widget))
+        if k == "pile":
+            out = [5, len(w.contents), w.focus_position if w.contents else 0]
+            for c, (kind, amount) in w.contents:
+                if amount is not None and not isinstance(amount, int):
+                    self.ok = False
+                    amount = 0
+                out += [wh_code(kind), 0 if amount is None else amount] + self.node(c)
+            return out
+        if k == "cols":
+            out = [6, len(w.contents), w.dividechars, w.min_width, w.focus_position if w.contents else 0]
+            for c, (kind, amount, is_box) in w.contents:
+                if amount is not None and not isinstance(amount, int):
+                    self.ok = False
+                    amount = 0
+                out += [wh_code(kind), 0 if amount is None else amount, int(bool(is_box))] + self.node(c)
+            return out
+        if k == "frame":
+            fpart = {"body": 0, "header": 1, "footer": 2}[w.focus_part]
+            out = [7, fpart, int(w.header is not None), int(w.footer is not None)] + self.node(w.body)
+            if w.header is not None:
+                out += self.node(w.header)
+            if w.footer is not None:
+                out += self.node(w.footer)
+            return out
+        if k == "ov":
+            return ([8, align_pct(w.align_type, w.align_amount)] + wtype_enc(w.width_type, w.width_amount)
+                    + [align_pct(w.valign_type, w.valign_amount)] + wtype_enc(w.height_type, w.height_amount)
+                    + oz(w.min_width) + oz(w.min_height) + [w.left, w.right, w.top, w.bottom]
+                    + self.node(w.top_w) + self.node(w.bottom_w))
+        raise core.MachineryError("cannot encode " + k)
+
+
+def probe_sizes(case):
+    return [([(), (c,), (c, r)][m], bool(f)) for m, c, r, f in case["probes"]]
+
+
+# ------------------------------------------------------------------ the check
+class C01(core.Check):
+    pid = "C01"
+    gen_modules = []
+    model_targets = ["theories/Model/WidgetDims.vo"]
+    prop_file = "theories/Properties/C01.v"
+    extract_v = "Extract/C01X.v"
+    allowed_axioms = set()
+    design_ref = "DESIGN.md section 5, C01"
+    search_budget = {"quick": 45, "thorough": 300}
+
+    def __init__(self):
+        super().__init__()
+        self._raw = {}
+        self._track = {}
+
+    # ---------- implementation ----------
+    def run_impl(self, case):
+        import urwid
+        urwid.set_encoding(case.get("enc", "utf-8"))
+        try:
+            w = build(case["tree"])
+            track = {"maxw": 0, "boxcalls": set()}
+            res = {"sizing": sizing_bits(w), "wf": int(wf_tree(w) is None), "probes": []}
+            raws = []
+            for size, focus in probe_sizes(case):
+                canon, raw = probe(w, size, focus, track)
+                res["probes"].append(canon)
+                raws.append(raw)
+            key = core.h(case)
+            self._raw = {key: raws}
+            self._track = {key: (w, track)}
+            return res
+        finally:
+            urwid.set_encoding("utf-8")
+
+    # ---------- model ----------
+    def encode(self, case):
+        import urwid
+        if case.get("mode") == "oracle":
+            return None
+        key = core.h(case)
+        if key not in self._track:
+            self.run_impl(case)
+        w, track = self._track[key]
+        urwid.set_encoding(case.get("enc", "utf-8"))
+        try:
+            enc = Encoder(min(track["maxw"], 120), track["boxcalls"])
+            ints = enc.node(w)
+            if not enc.ok:
+                return None
+            ints.append(len(case["probes"]))
+            for m, c, r, f in case["probes"]:
+                ints += [m, c, r, int(bool(f))]
+            return ints
+        finally:
+            urwid.set_encoding("utf-8")
+
+    def decode(self, case, ints):
+        it = iter(ints)
+
+        def name(code):
+            return "Starved" if code == 13 else ERRNAME.get(code, "OtherError")
+
+        def rz():
+            t, v = next(it), next(it)
+            return v if t == 0 else name(v)
+
+        def rpair():
+            t = next(it)
+            if t == 0:
+                return [next(it), next(it)]
+            return name(next(it))
+
+        def rcanv():
+            t = next(it)
+            if t == 0:
+                c, r, cf, x, y, rc = (next(it) for _ in range(6))
+                return [c, r, [x, y] if cf else None, rc]
+            return name(next(it))
+        try:
+            first = next(it)
+            if first == -1:
+                return {"malformed": True}
+            res = {"sizing": [first, next(it), next(it)], "wf": next(it), "probes": []}
+            for m, _c, _r, _f in case["probes"]:
+                p = {}
+                if m == 1:
+                    p["rows"] = rz()
+                if m < 2:
+                    p["pack"] = rpair()
+                p["render"] = rcanv()
+                res["probes"].append(p)
+            return res
+        except StopIteration:
+            return {"malformed": ints[:40]}
+
+    # ---------- oracle: the property text, judged on the real canvas ----------
+    def oracle(self, case, res):
+        key = core.h(case)
+        if key not in self._raw:
+            self.run_impl(case)
+        raws = self._raw[key]
+        sizing = res["sizing"]
+        msgs = []
+        for (m, c, r, f), raw in zip(case["probes"], raws):
+            if not sizing[[2, 1, 0][m]]:
+                continue                      # the widget does not claim this sizing mode
+            if m and c < 1 or m == 2 and r < 1:
+                continue
+            size = [(), (c,), (c, r)][m]
+            tag = f"render({size}, focus={bool(f)})"
+            rd = raw["render"]
+            starved = rd["starved"]
+            note = ""
+            if starved:
+                cls, meth, ssz = starved[0]
+                note = f" [starved: {cls}.{meth} was called with size {ssz}]"
+            v = rd["value"]
+            if isinstance(v, str):
+                msgs.append(f"{tag} raised {rd['detail']}{note}")
+                continue
+            cols, rows, cur, rect = v
+            if m == 2 and (cols, rows) != (c, r):
+                msgs.append(f"{tag} returned a {cols}x{rows} canvas{note}")
+            elif m == 1:
+                rv = raw["rows"]["value"]
+                if isinstance(rv, str):
+                    msgs.append(f"rows({size}) raised {raw['rows']['detail']}{note}")
+                elif (cols, rows) != (c, rv):
+                    msgs.append(f"{tag} returned a {cols}x{rows} canvas, rows() says {rv}{note}")
+            elif m == 0:
+                pv = raw["pack"]["value"]
+                if isinstance(pv, str):
+                    msgs.append(f"pack(()) raised {raw['pack']['detail']}{note}")
+                elif [cols, rows] != pv:
+                    msgs.append(f"{tag} returned a {cols}x{rows} canvas, pack(()) says {pv[0]}x{pv[1]}{note}")
+            if not rect:
+                msgs.append(f"{tag}: {(raw['problems'] or ['content rows do not match the canvas size'])[0]}{note}")
+            if cur is not None and not (0 <= cur[0] < cols and 0 <= cur[1] < rows):
+                msgs.append(f"{tag}: cursor {tuple(cur)} outside the {cols}x{rows} canvas{note}")
+        return msgs
+
+    def nontrivial(self, case, res):
+        return spec_size(case["tree"]) > 1 or any(not isinstance(p.get("render"), str) for p in res["probes"])
+
+    def signature(self, case, msg):
+        m = re.sub(r"render\([^)]*\)?,? ?focus=\w+\)", "render", msg)
+        m = re.sub(r"\d+", "N", m)
+        m = re.sub(r"'[^']*'|\"[^\"]*\"", "S", m)
+        return m[:160]
+
+    def distribution(self, case, res, dist):
+        def bump(k):
+            dist[k] = dist.get(k, 0) + 1
+
+        def walk(spec):
+            bump("widget:" + spec[0])
+            for c in children(spec):
+                walk(c)
+        walk(case["tree"])
+        bump("mode:" + case.get("mode", "corr"))
+        bump("enc:" + case.get("enc", "utf-8"))
+        bump("depth:%d" % min(spec_depth(case["tree"]), 7))
+        bump("wf:%d" % res["wf"])
+        for (m, _c, _r, _f), p in zip(case["probes"], res["probes"]):
+            bump("probe:" + ["fixed", "flow", "box"][m])
+            rd = p["render"]
+            bump("outcome:" + (rd if isinstance(rd, str) else "ok"))
+
+    # ---------- generators ----------
+    def make_case(self, rng, spec, enc, nsizes):
+        """Build the widget once to learn its sizing and WellFormed-ness; choose probes."""
+        import urwid
+        urwid.set_encoding(enc)
+        try:
+            try:
+                w = build(spec)
+                bits = sizing_bits(w)
+                why = wf_tree(w)
+            except Exception:      # noqa: BLE001  (constructor refused the combination: not a case)
+                return None
+        finally:
+            urwid.set_encoding("utf-8")
+        probes = []
+        for _ in range(nsizes):
+            c = rng.choice([1, 1, 2, 3, 4, 5, 6, 7, 8, 9, 10, 11, 12, 12])
+            r = rng.choice([1, 1, 2, 3, 4, 5, 6, 7, 8, 9, 10, 11, 12])
+            if bits[0]:
+                probes += [[2, c, r, 0], [2, c, r, 1]]
+            if bits[1]:
+                probes += [[1, c, 0, 0], [1, c, 0, 1]]
+        if bits[2]:
+            probes += [[0, 0, 0, 0], [0, 0, 0, 1]]
+        return {"tree": spec, "enc": enc, "probes": probes, "mode": "corr" if why is None else "oracle", "why": why}
+
+    def cases(self, rng, tier):
+        g = Gen(rng)
+        n = 1500 if tier == "quick" else 15000
+        made = 0
+        attempts = 0
+        while made < n and attempts < 20 * n:
+            attempts += 1
+            enc = rng.choice(ENCODINGS)
+            want = rng.choice(["box", "flow", "fixed", None])
+            spec = g.tree(rng.choice([0, 1, 2, 2, 3, 3, 4, 4, 5]), want)
+            case = self.make_case(rng, spec, enc, rng.choice([1, 2, 2, 3]))
+            if case is None or case["mode"] != "corr":
+                continue
+            case.pop("why")
+            made += 1
+            yield case
+
+    def search_cases(self, rng, tier):
+        g = Gen(rng)
+        while True:
+            spec = g.tree(rng.choice([1, 2, 3]), rng.choice(["box", "flow", "fixed", None]))
+            case = self.make_case(rng, spec, rng.choice(ENCODINGS), 3)
+            if case is not None and case["mode"] == "corr":
+                case.pop("why")
+                yield case
+
+    # ---------- shrinking ----------
+    def shrink_candidates(self, case):
+        tree = case["tree"]
+
+        def with_tree(t, probes=None):
+            c = dict(case)
+            c["tree"] = t
+            if probes is not None:
+                c["probes"] = probes
+            return c
+        # fewer probes
+        if len(case["probes"]) > 1:
+            for i in range(len(case["probes"])):
+                c = dict(case)
+                c["probes"] = [case["probes"][i]]
+                yield c
+        # a subtree alone (all three modes at the probe's numbers)
+        pr = case["probes"][0]
+        allmodes = [[2, max(pr[1], 1), max(pr[2], 1), pr[3]], [1, max(pr[1], 1), 0, pr[3]], [0, 0, 0, pr[3]]]
+        for sub in subtrees(tree):
+            if sub is not tree:
+                yield with_tree(sub, allmodes)
+        # structural simplifications in place
+        for t in simplifications(tree):
+            yield with_tree(t)
+        # smaller numbers
+        m, c, r, f = pr
+        for c2, r2 in ((c - 1, r), (c, r - 1), (c // 2, r), (c, r // 2)):
+            if (m == 0) or c2 < 1 or (m == 2 and r2 < 1) or (c2, r2) == (c, r):
+                continue
+            cc = dict(case)
+            cc["probes"] = [[m, c2, r2, f]]
+            yield cc
+        if case.get("enc") != "utf-8":
+            cc = dict(case)
+            cc["enc"] = "utf-8"
+            yield cc
+
+
+def subtrees(spec):
+    yield spec
+    for c in children(spec):
+        yield from subtrees(c)
+
+
+def replace_child(spec, idx, new):
+    """Copy of spec with its idx-th child (in children() order) replaced."""
+    k = spec[0]
+    s = list(spec)
+    if k == "pile":
+        items = [list(it) for it in spec[1]]
+        items[idx][1] = new
+        s[1] = items
+    elif k == "cols":
+        items = [list(it) for it in spec[1]]
+        items[idx][1] = new
+        s[1] = items
+    elif k in ("listbox", "gridflow"):
+        items = list(spec[1])
+        items[idx] = new
+        s[1] = items
+    elif k in ("pad", "fill", "ba", "attr", "linebox", "scroll", "scrollable"):
+        s[1] = new
+    elif k == "ov":
+        s[1 + idx] = new
+    elif k == "frame":
+        pos = [i for i in (1, 2, 3) if spec[i]][idx]
+        s[pos] = new
+    return s
+
+
+SIMPLE = {"flow": ["text", "a", "left", "space"], "box": ["solid", "x"], "fixed": ["bigtext", "1", "3x3"]}
+
+
+def simplifications(spec):
+    """One-step simpler variants of the tree (same root kind or simpler)."""
+    k = spec[0]
+    kidsl = children(spec)
+    # replace a child by a trivial leaf / by one of its own children / simplify inside it
+    for i, c in enumerate(kidsl):
+        for leaf in SIMPLE.values():
+            if c != leaf and spec_size(c) >= 1 and c[0] not in ("solid",):
+                yield replace_child(spec, i, leaf)
+        for gc in children(c):
+            yield replace_child(spec, i, gc)
+        for c2 in simplifications(c):
+            yield replace_child(spec, i, c2)
+    # drop items
+    if k in ("pile", "cols") and len(spec[1]) > 1:
+        for i in range(len(spec[1])):
+            s = list(spec)
+            s[1] = spec[1][:i] + spec[1][i + 1:]
+            s[-1] = min(spec[-1], len(s[1]) - 1)
+            yield s
+    if k in ("listbox", "gridflow") and len(spec[1]) > 0:
+        for i in range(len(spec[1])):
+            s = list(spec)
+            s[1] = spec[1][:i] + spec[1][i + 1:]
+            yield s
+    if k in ("pile", "cols"):
+        for i, it in enumerate(spec[1]):
+            if it[0] is not None:
+                s = list(spec)
+                items = [list(x) for x in spec[1]]
+                items[i][0] = None
+                s[1] = items
+                yield s
+    # neutral parameters
+    neutral = {"pad": {4: None, 5: 0, 6: 0, 2: "left"}, "fill": {4: None, 5: 0, 6: 0, 2: "top"},
+               "ov": {7: None, 8: None, 9: 0, 10: 0, 11: 0, 12: 0, 3: "left", 5: "top"},
+               "cols": {2: 0, 3: 1}, "linebox": {2: ""}, "frame": {4: "body"}, "div": {2: 0, 3: 0},
+               "text": {1: "a", 2: "left", 3: "space"}, "edit": {1: "", 2: "a", 3: "space", 4: "left"},
+               "progress": {2: None}}.get(k, {})
+    for pos, val in neutral.items():
+        if spec[pos] != val:
+            s = list(spec)
+            s[pos] = val
+            yield s
+    if k == "frame":
+        for pos in (2, 3):
+            if spec[pos]:
+                s = list(spec)
+                s[pos] = None
+                yield s
+
+
+CHECK = C01
